@@ -21,7 +21,7 @@ so that the theorems of `Props/C11.lean` are theorems about the translated sourc
   with `const`); a user-level order key is a `str` or such an expression (`OrderArg.toVal`); `OrderBy.toVal` is `None`,
   a key, a `list` or a `tuple` of keys;
 * filter clauses: `clauseV` (`SQLOp` objects with `op`, `expr1`, `expr2`; `SQLTrueClause` is the module-level object;
-  the keyword clause of `selectBy` is `SQLConstant(<text>)`);
+  the keyword clause of `selectBy`, a text, is stored by `__init__` as `SQLConstant('(<text>)')`);
 * a `SelectResults` is an object with the attributes `sourceClass`, `clause`, `ops` (a dict), `clauseTables`, `tables`;
   it REPRESENTS the hand model's `Sel` when `Rep` holds (clause, `ops['dbOrderBy']`, truth of `ops['reversed']` /
   `ops['distinct']`).
@@ -142,7 +142,7 @@ def clauseV (sr : Val → Str) (sch : Schema) : Query.Expr → Val
   | .and a b => sqlOpV ['A', 'N', 'D'] (clauseV sr sch a) (clauseV sr sch b)
   | .or a b => sqlOpV ['O', 'R'] (clauseV sr sch a) (clauseV sr sch b)
   | .not a => .obj "SQLPrefix" [("prefix", .str ['N', 'O', 'T']), ("expr", clauseV sr sch a)]
-  | .kw conds => constV (.str (condsText sr sch conds))
+  | .kw conds => constV (.str (['('] ++ condsText sr sch conds ++ [')']))   -- `__init__` groups a text clause
 
 /-! ### the class and its `sqlmeta` -/
 
